@@ -91,7 +91,7 @@ def route_families():
 
 
 def shards(tier, seed):
-    return [("product1",), ("product2", 0), ("product2", 1), ("product2", 2), ("product2", 3), ("diag",), ("seps",), ("autoslot",), ("edits",), ("tcp",), ("drivers",), ("history",)]
+    return [("product1",), ("product2", 0), ("product2", 1), ("product2", 2), ("product2", 3), ("diag",), ("seps",), ("autoslot",), ("edits",), ("tcp",), ("drivers",), ("history",), ("routestr",)]
 
 
 def describe(tier, seed):
@@ -260,6 +260,31 @@ def run_shard(shard, tier, seed):
                 except Exception:  # noqa
                     pass
                 expect_valid(rep, path, host, tcp, segs, auto, f"history/{mutate}")
+    elif k == "routestr":
+        # route strings handed to generic_message(route_path=<str>) use the same grammar (no host part)
+        from pycomm3.cip_driver import parse_cip_route
+        from pycomm3.cip import PADDED_EPATH
+        from pycomm3.exceptions import RequestError, DataError
+
+        for hops, routes in fam.items():
+            if not hops:
+                continue
+            for segs in routes:
+                for seps in itertools.product(SEPS, repeat=len(segs) - 1):
+                    path = segs[0] + "".join(sp + sg for sp, sg in zip(seps, segs[1:]))
+                    want = ref_route_bytes(ref_parse("h", None, segs, False)[2])
+                    try:
+                        got = ("ok", bytes(PADDED_EPATH.encode(parse_cip_route(path), length=True)))
+                    except (RequestError, DataError) as e:
+                        got = (type(e).__name__, str(e)[:60])
+                    except Exception as e:  # noqa
+                        got = ("foreign", type(e).__name__)
+                    ok = got == ("ok", want)
+                    rep.case(("routestr", path), outcome="ok" if ok else "bad")
+                    if not ok:
+                        used = "".join(sorted(set(seps)))
+                        rep.violation("route-string/separator-" + ("comma" if "," in used else "slashes"),
+                                      f"parse_cip_route({path!r}) -> {got!r:.120}; documented route bytes {want.hex()}", {"kind": "routestr", "path": path})
     elif k == "drivers":
         import pycomm3
         from pycomm3.cip import PADDED_EPATH
@@ -298,7 +323,7 @@ def replay(r):
         print("path     :", r["path"], "auto_slot", r["auto_slot"], "(invalid:", r["why"] + ")")
         print("library  :", got)
         return got[0] in ("RequestError", "DataError")
-    rep = run_shard(("drivers",), "quick", 0)
+    rep = run_shard(("routestr",) if r["kind"] == "routestr" else ("drivers",), "quick", 0)
     for s, vs in rep.violations.items():
         print("  violates:", s, "::", vs[0].msg[:300])
     return not rep.violations
